@@ -145,7 +145,11 @@ func SolveAided(script, aided, ground string, opts SolveOpts) *SolveResult {
 		if f == gfile {
 			nm += "+ground"
 		}
-		st, out, el := runSolver(ctx, solvers[0], f, t1)
+		tt := t1
+		if f == gfile && opts.Timeout >= 8 {
+			tt = 4 // the quantifier-free arm is the one most likely to decide a quantified goal: give it more room first
+		}
+		st, out, el := runSolver(ctx, solvers[0], f, tt)
 		res.Tried = append(res.Tried, fmt.Sprintf("%s:%s:%.2fs", nm, st, el))
 		res.Seconds += el
 		if f == gfile && st != "unsat" {
